@@ -53,18 +53,20 @@ func last(s string) string {
 
 func shape(body *ast.BlockStmt) []string {
 	var toks []string
+	var chans []string
+	calls := map[string]bool{}
 	deferred := map[*ast.CallExpr]bool{}
 	ast.Inspect(body, func(n ast.Node) bool {
 		switch x := n.(type) {
 		case *ast.DeferStmt:
 			deferred[x.Call] = true
 		case *ast.GoStmt:
-			toks = append(toks, "go:"+last(sel(x.Call.Fun)))
+			chans = append(chans, "go:"+last(sel(x.Call.Fun)))
 		case *ast.SendStmt:
-			toks = append(toks, "send:"+last(sel(x.Chan)))
+			chans = append(chans, "send:"+last(sel(x.Chan)))
 		case *ast.UnaryExpr:
 			if x.Op == token.ARROW {
-				toks = append(toks, "recv:"+last(sel(x.X)))
+				chans = append(chans, "recv:"+last(sel(x.X)))
 			}
 		case *ast.SelectStmt:
 			def := ""
@@ -73,7 +75,7 @@ func shape(body *ast.BlockStmt) []string {
 					def = "+default"
 				}
 			}
-			toks = append(toks, "select"+def)
+			chans = append(chans, "select"+def)
 		case *ast.CallExpr:
 			name := sel(x.Fun)
 			l := last(name)
@@ -86,18 +88,39 @@ func shape(body *ast.BlockStmt) []string {
 				toks = append(toks, pre+l)
 			case name == "close":
 				if len(x.Args) == 1 {
-					toks = append(toks, "close:"+last(sel(x.Args[0])))
+					chans = append(chans, "close:"+last(sel(x.Args[0])))
 				}
 			case interest[l]:
+				// metric counters, the closed flag and time arithmetic are not steps of the machine
+				if strings.Contains(name, "etrics.") || strings.Contains(name, "isClosed.") || strings.Contains(name, "Now()") {
+					break
+				}
 				parts := strings.Split(name, ".")
 				if len(parts) > 2 {
 					parts = parts[len(parts)-2:]
 				}
-				toks = append(toks, pre+"call:"+strings.Join(parts, "."))
+				calls[strings.Join(parts, ".")] = true
 			}
 		}
 		return true
 	})
+	// calls of machine steps / callbacks: as a sorted set (branch order, helper closures and de-duplication of
+	// identical calls do not matter; which steps a function can take does)
+	// channel operations, select and go statements: as a sorted multiset (a helper closure moves them in the source)
+	sort.Strings(chans)
+	if len(chans) > 0 {
+		toks = append(toks, "| chan:")
+		toks = append(toks, chans...)
+	}
+	var cs []string
+	for c := range calls {
+		cs = append(cs, c)
+	}
+	sort.Strings(cs)
+	if len(cs) > 0 {
+		toks = append(toks, "| calls:")
+		toks = append(toks, cs...)
+	}
 	return toks
 }
 
